@@ -187,25 +187,41 @@ def run(ctx):
                           f"filter but two classes for an HTML parser, so a class outside the allow-list survives")
         ctx.check(any(n.endswith("::join") for n in names), "C14.classes", "C14.classes:join", w.where(main), bad_msg="kept classes are not re-joined with join(..)")
         dexc = D.Dex(w.lookup, adt_discr=w.adt_discr, unroll=1)
+        def nested(gp):
+            return [h for h in w.all_fns() if h["path"].startswith(gp + "::{closure#") and "body" in h]
+        def calls_matches(h):
+            return any(M.callee_name(c).endswith("::matches") and "WildMatch" in M.callee_name(c) for _, c in M.calls(h["body"]))
         subs = [fn for fn in w.all_fns() if fn["path"].startswith(main["path"] + "::{closure#") and fn["path"].count("{closure") == main["path"].count("{closure") + 1
-                and "body" in fn and any(M.callee_name(c).endswith("::matches") and "WildMatch" in M.callee_name(c) for _, c in M.calls(fn["body"]))]
+                and "body" in fn and (calls_matches(fn) or any(calls_matches(h) for h in nested(fn["path"])))]
         kinds = {}
         for g in subs:
             ps = dexc.paths(g, [D.sym("env"), D.sym("class")])
-            txt = " ".join(D.show_atom(a) for p in ps for a, t in p.conds)
+            txt = " ".join(D.show_atom(a) for p in ps for a, t in p.conds) + " ".join(D.show(p.ret) for p in ps if p.kind == "ret")
             kind = "remove" if "remove_classes" in txt else "allow" if "allow_classes" in txt else "?"
             rets = [p for p in ps if p.kind == "ret"]
-            okk = bool(rets)
+            okk = bool(rets) and all(p.kind in ("ret", "loop") for p in ps)
             for p in rets:
+                r = D.show(p.ret)
+                if p.ret is not None and p.ret[0] in ("atom", "natom") and "Iterator::any(" in r:
+                    # iterator shape: [!]patterns.any(|pattern| WildMatch::new(pattern).matches(class))
+                    m = re.search(r"closure\[([^\]]+)\]\{_ref__class=class\}\)\)?$", r)
+                    inner = w.lookup(m.group(1)) if m else None
+                    iok = False
+                    if inner is not None and "body" in inner:
+                        ips = dexc.paths(inner, [D.sym("env"), D.sym("pattern")])
+                        iok = len(ips) == 1 and D.show(ips[0].ret) == "WildMatchPattern::matches(WildMatchPattern::new(pattern), env._ref__class)"
+                    positive = p.ret[0] == "atom"
+                    okk = okk and iok and ((kind == "allow" and positive) or (kind == "remove" and not positive)) and \
+                        (("remove_classes" in r) == (kind == "remove"))
+                    continue
                 conds = [(D.show_atom(a), t) for a, t in p.conds]
                 m = [(a, t) for a, t in conds if a.startswith("WildMatchPattern::matches(")]
                 matched = any(t for a, t in m)
                 argok = all(a.rstrip(")").endswith(", class") or ", class)" in a for a, t in m)
-                r = D.show(p.ret)
                 if kind == "allow":
-                    okk = okk and argok and ((r == "True") == matched)
+                    okk = okk and argok and ((r == "True") == matched) and r in ("True", "False")
                 elif kind == "remove":
-                    okk = okk and argok and ((r == "False") == matched)
+                    okk = okk and argok and ((r == "False") == matched) and r in ("True", "False")
                 else:
                     okk = False
             kinds[kind] = okk
